@@ -1253,6 +1253,13 @@ class DeterministicOde(BaseOdeModel):
         else:
             state = state_param[0:self.num_state]
 
+        if by_state:
+            # the sensitivities arrive as S[i,j] at position i*nP + j; bring
+            # them to the default (by parameter) layout that is used below
+            sens = np.reshape(state_param[self.num_state::],
+                              (self.num_state, self.num_param))
+            state_param = np.append(state, self._SAUtil.matToVecSens(sens))
+
         # now we start the computation
         J = self.jacobian(state, t)
         # create the block diagonal Jacobian, assuming that whoever is
@@ -1268,18 +1275,17 @@ class DeterministicOde(BaseOdeModel):
         sensJacobianOfState = GJ + self.sens_jacobian_state(state_param, t)
 
         if by_state:
+            # row (and column) i*nP + j of the by state system is row (and
+            # column) j*nS + i of the by parameter system computed above
             arrangeVector = np.zeros(self.num_state * self.num_param)
             k = 0
-            for j in range(0, self.num_param):
-                for i in range(0, self.num_state):
-                    if i == 0:
-                        arrangeVector[k] = (i*self.num_state) + j
-                    else:
-                        arrangeVector[k] = (i*(self.num_state - 1)) + j
+            for i in range(0, self.num_state):
+                for j in range(0, self.num_param):
+                    arrangeVector[k] = (j*self.num_state) + i
                     k += 1
 
-            outJ = outJ[np.array(arrangeVector,int),:]
             idx = np.array(arrangeVector, int)
+            outJ = outJ[idx,:][:,idx]
             sensJacobianOfState = sensJacobianOfState[idx,:]
         # The Jacobian of the ode, then the sensitivities w.r.t state and
         # the sensitivities. In block form.  Theoretically, only the diagonal
